@@ -165,7 +165,7 @@ PROPS = {
         "modules": ["CambrianModel.Props.C02"],
         "theorems": ["Cambrian.Props.C02_member", "Cambrian.Props.C02_min1", "Cambrian.Props.C02_nonempty1",
                      "Cambrian.Ctl.run_popInv"],
-        "correspondences": ["ctl", "pop"],
+        "correspondences": ["ctl", "pop", "run"],
         "trusted": CTL_TRUST + ["float law FL-mean1 (mean of one value is that value; exercised by cvh selftest); for sample size > 1 the mean is an observed value"],
         "assumptions": ["objective values compared through their order codes (-0.0 = 0.0)"],
     },
